@@ -28,6 +28,10 @@ STRENGTHENED = {
     "C11-r3": "token bucket classes differing only in burst / only in rate",
     "C12-r3": "HTTP part: real webhooks + real cluster manager (ClientFor) + controller, a server name moving between live clusters",
     "C13-r3": "sparse / unordered leader lists in the gateway-side shard probe",
+    "C16-r3": "serving class 'empty, non-nil client CA bundle' (applied over an object with a CA)",
+    "C18-r3": "sparse leadership: three shards, the server leads a non-prefix subset (scripted elector)",
+    "C19-r3": "graceful stop with several pending conditions while one write fails",
+    "C20-r3": "a third label value, so that the label shapes (marker keys with empty values swapped) reach status updates",
 }
 rows = []
 for d in sorted(glob.glob("/verif/seeded/C*")):
